@@ -72,3 +72,9 @@ func VerifLoadRuleFile(path string) (*ModuleCompress, error) {
 	m.ruleTable.Update(conf)
 	return m, nil
 }
+
+// VerifReload is the module's real reload handler (loadProductRuleConf) with ?path=<path>; on an error
+// the rule table keeps what it had.
+func (m *ModuleCompress) VerifReload(path string) error {
+	return m.loadProductRuleConf(map[string][]string{"path": {path}})
+}
